@@ -43,7 +43,8 @@ def cases(tier, sd):
             m = dict(family='solution',
                      module=['Collins_Stewart', 'Szekeres', 'LCDM'][int(rng.integers(3))])
         else:
-            v = [dict(), dict(shear=0.4), dict(lapse=0.0), dict(shift=0.0)][int(rng.integers(4))]
+            v = [dict(), dict(shear=0.4), dict(lapse=0.0), dict(shift=0.0),
+                 dict(shift_x0=True)][int(rng.integers(5))]
             m = dict(family=S.ADMTrig.name, seed=int(rng.integers(1 << 20)),
                      period=2.0, **v)
         scal = 8.0 * 7 ** 3 / 1024 ** 3
@@ -87,7 +88,8 @@ def cases(tier, sd):
     for c in range(nch):
         gen = bool(tier == "thorough" and c % 4 == 3)
         m = (dict(family=S.PulledBack.name, seed=int(rng.integers(1 << 20)), base='kasner', period=2.0)
-             if gen else dict(family=S.ADMTrig.name, seed=int(rng.integers(1 << 20)), period=2.0))
+             if gen else dict(family=S.ADMTrig.name, seed=int(rng.integers(1 << 20)), period=2.0,
+                              shift_x0=bool(c % 4 == 1)))
         out.append(dict(kind='pairs', member=m, style=['tensor', 'components'][c % 2],
                         vacuum=gen, Lambda=0.0 if gen else 0.2, tetrad=None, center=None,
                         n1=6, order=2, mode='periodic', noncubic=None,
